@@ -211,7 +211,7 @@ Definition compile_macros (enum_check : coords -> option (N * Z)) (fuel : nat) (
   | COk (roots', ms) =>
       match check_recursion fuel ms with
       | [e] => XErr e
-      | _ :: _ :: _ as es => XErrOneOf es
+      | (_ :: _ :: _) as es => XErrOneOf es
       | [] =>
           match expand_list enum_check ms fuel (mkX [] None []) roots' with
           | CErr e => XErr e
